@@ -245,6 +245,9 @@ def check(prop, tier, seed, runs=None, workers=None, wall_cap=None, selftest=Tru
             if res.get("error"):
                 harness_error(f"exception inside the harness (chunk at run {res['start']}):\n{res['error']}")
             results[res["start"]] = res
+            if res["failures"] and os.environ.get("VERIF_STOP_EARLY"):
+                # (self-tests of the framework only: mutants / seeded changes need one violation, not the whole budget)
+                pending = []
     for start in sorted(results):
         res = results[start]
         for k in ("runs", "events", "nontrivial"):
